@@ -25,11 +25,6 @@ pub open spec fn bank_balance(q: Querier, addr: Seq<char>, denom: Seq<char>) -> 
 pub open spec fn bank_supply(q: Querier, denom: Seq<char>) -> nat {
     if q.supply@.dom().contains(denom) { q.supply@[denom] } else { 0 }
 }
-pub trait AsStr { spec fn sv(&self) -> Seq<char>; }
-impl AsStr for Str { open spec fn sv(&self) -> Seq<char> { self@ } }
-impl AsStr for &Str { open spec fn sv(&self) -> Seq<char> { (*self)@ } }
-impl AsStr for Addr { open spec fn sv(&self) -> Seq<char> { self@ } }
-impl AsStr for &Addr { open spec fn sv(&self) -> Seq<char> { (*self)@ } }
 
 impl Querier {
     #[verifier::external_body]
